@@ -201,7 +201,7 @@ class ResolveXp(Contract):
             I.path.prove(z3.BoolVal(isinstance(r, NoneV)), f"{self.qual}:C13:None stays None")
             return
         got = as_ns(r)
-        I.path.prove(z3.BoolVal(got is not None and got.f["name"].v == sh["want"]), f"{self.qual}:C13:saved namespace name '{sh['name']}' resolves to the {sh['want']} namespace")
+        I.path.prove(z3.BoolVal(got is not None and got.f["name"].v == sh["want"]), f"{self.qual}:C13:C12:C15:saved namespace name '{sh['name']}' resolves to the {sh['want']} namespace (the documented resume route rebuilds the instance in the namespace of the interrupted run)")
 
 
 class DictRoundTrip(Contract):
@@ -359,7 +359,7 @@ class HistorySaveLoad(Contract):
         # save() works on a deep copy of the history: the reloaded populations are (copies of) the recorded ones, identified by their tag
         same = isinstance(got, PyList) and len(got.items) == len(g["pops"]) and all(isinstance(a, Obj) and isinstance(a.f.get("tag"), Str) and a.f["tag"].v == b.f["tag"].v
                                                                                   for a, b in zip(got.items, g["pops"]))
-        p.prove(z3.BoolVal(same), f"{q}:C13:the stored populations reload in the order they were recorded {tag}")
+        p.prove(z3.BoolVal(same), f"{q}:C13:C18:the stored populations reload in the order they were recorded (population k+1 is the one after iteration k) {tag}")
         for nm in SERIES:
             v = back.f.get(nm)
             items = list(I.iterate(v, None)) if v is not None and not isinstance(v, NoneV) else None
